@@ -174,3 +174,20 @@ Example C14_ex_gradient :
   | None => False
   end.
 Proof. split; [repeat constructor; discriminate|]. vm_compute. repeat split. Qed.
+
+(* the length test `len(costs) > self.n` (self.n = m + 1): a design that is handed to evaluate() a
+   SECOND time - which no population algorithm of artap does, and which the theorems above exclude
+   by creating the designs of every batch - is post-processed again and gets m + 2 costs; only from
+   the third time on the entry is overwritten.  Recorded here so that the limit of the theorems is
+   explicit (see notes/C14.md). *)
+Example C14_ex_resubmission_quirk :
+  let wce := wc_evaluate Z Z.add Z.sub Z.mul Z.abs 0%Z 1%Z (-1)%Z exsum 2 [1; 2]%Z exf exsgn (fun _ => true) in
+  let '(s1, _) := wc_batches Z Z.add Z.sub Z.mul Z.abs 0%Z 1%Z (-1)%Z exsum 2 [1; 2]%Z exf exsgn
+                             (fun _ => true) (init Z) [[[1; 2]]]%Z in
+  let s2 := wce s1 [0] in
+  let s3 := wce s2 [0] in
+  d_costs Z (h_get Z (s_heap Z s1) 0) = [3; -1; 8]%Z /\
+  d_costs Z (h_get Z (s_heap Z s2) 0) = [3; -1; 8; 8]%Z /\
+  d_costs Z (h_get Z (s_heap Z s3) 0) = [3; -1; 8; 8]%Z /\
+  length (s_log Z s1) = 5 /\ length (s_log Z s2) = 9 /\ length (s_log Z s3) = 13.
+Proof. vm_compute. repeat split. Qed.
